@@ -51,6 +51,13 @@ def run(pid, families, tier, seed, ev, maxout, extra=None):
             cases = _structural_cases(fam, method, random.Random(rng.getrandbits(32)), tier == "quick")
         except Exception as e:
             raise V.HarnessError("encoder suite for %s failed: %r" % (method, e))
+        if fam == "pm1":
+            # "a -pm1- stream that ends before the declared length is continued as if followed by zero bits": the same stream without the zero
+            # bytes at its end (which cuts inside whatever code or command ends there) denotes the same bytes
+            cut = [(label + " / zero bytes at the end dropped", meth, stream.rstrip(b"\0"), expected) for (label, meth, stream, expected) in cases
+                   if stream.rstrip(b"\0") != stream and len(expected) <= 4000]
+            ev.add("pm1_streams_with_zero_tail_dropped", len(cut))
+            cases = cases + cut
         rng.shuffle(cases)
         cases = [c for c in (extra or []) if c[1] == method] + cases
         kept = 0
